@@ -643,6 +643,16 @@ class Evaluator:
         ln = s.lineno
         tag = 'F%d' % ln
         res = []
+        # for v in itertools.count(k): body   ==   c = k; while True: v = c; c += 1; body
+        # (an unbounded counting loop left by break / return: evaluated like the flag-controlled while loops, with
+        # the first iteration peeled)
+        sy = synth_count_loop(self.P, fi, s)
+        if sy is not None:
+            init, loop = sy
+            out = []
+            for e0 in self._stmt(init, st, fi, depth):
+                out.extend(self._while(loop, e0.state, fi, depth) if e0.kind == 'fall' else [e0])
+            return out
         for it, s1, k in self._ev(s.iter, st, mod, fi, depth):
             if k == 'raise':
                 res.append(Exit('raise', it, s1, s))
@@ -654,8 +664,16 @@ class Evaluator:
             modified = self._modified(s.body, fi) | {n.id for n in ast.walk(s.target) if isinstance(n, ast.Name)}
             entry_env = dict(s1.env)
             head = self._havoc(s1, modified, s.body, tag)
-            var = self._loopvar(s.target, it, tag)
-            head = self._assign(s.target, var, head, mod, fi, depth, ln)
+            pair = _neighbour_pairs(it)
+            if pair is not None and isinstance(s.target, (ast.Tuple, ast.List)) and len(s.target.elts) == 2:
+                # for a, b in zip(X[:-1], X[1:])  ==  for j in range(len(X) - 1): a, b = X[j], X[j + 1]
+                var = S('idx@%s' % tag)
+                it = ('call', 'builtins.range', (('bin', '-', ('call', 'builtins.len', (pair,), ()), C(1)),), ())
+                vals = ('tuple', (_mk_sub(pair, var), _mk_sub(pair, ('bin', '+', var, C(1)))))
+                head = self._assign(s.target, vals, head, mod, fi, depth, ln)
+            else:
+                var = self._loopvar(s.target, it, tag)
+                head = self._assign(s.target, var, head, mod, fi, depth, ln)
             self._range_facts(var, it, head)
             head.trace.append('%d:for %s in %s' % (ln, unparse(s.target), show(it)[:60]))
             head_env = dict(head.env)      # states are updated in place: keep the head snapshot
@@ -672,6 +690,25 @@ class Evaluator:
             # state after the loop: zero or more iterations -> modified variables are arbitrary.
             # Variables not modified keep their values; path conditions of the body are dropped.
             post = self._havoc(s1, modified, s.body, tag + 'post')
+            # a list filled by exactly one append per iteration is the comprehension over the same iterable:
+            #   out = []; for v in IT: out.append(E(v))   ==   out = [E(v) for v in IT]
+            if not after and not res_has_exit(res, s) and body_states and var[0] == 's':
+                for name in sorted(modified):
+                    start = entry_env.get(name)
+                    hd = head_env.get(name)
+                    if start is None or start[0] != 'list' or hd is None:
+                        continue
+                    elts = set()
+                    for kind, b in body_states:
+                        v = b.env.get(name)
+                        if v is not None and v[0] == 'mut' and v[1] == 'append' and v[2] == hd and len(v[3]) == 1:
+                            elts.add(v[3][0])
+                        else:
+                            elts.add(None)
+                    if len(elts) == 1 and None not in elts:
+                        bv = ('bv', var[1].split('@')[0])
+                        comp = ('comp', 'list', substitute(next(iter(elts)), {var: bv}), ((bv, it, ()),))
+                        post.env[name] = comp if not start[1] else ('bin', '+', start, comp)
             post.loops.append(LoopSummary(s, 'for', var, it, body_states, head_env, entry_env))
             post.trace.append('%d:for done' % ln)
             if s.orelse:
@@ -864,6 +901,13 @@ class Evaluator:
         st.conds.append((t, b, ln))
         if t[0] == 'un' and t[1] == 'not':
             return self.assume(t[2], not b, st, ln)
+        if t[0] == 'call' and t[1] in ('builtins.bool', 'numpy.bool_') and len(t[2]) == 1 and not t[3]:
+            return self.assume(t[2][0], b, st, ln)
+        if (t[0] == 'or' and not b) or (t[0] == 'and' and b):
+            # not (a or b or c)  =>  every disjunct is false ;  (a and b)  =>  every conjunct is true
+            for x in t[1]:
+                self.assume(x, b, st, ln)
+            return
         if t[0] == 'cmp':
             op, a, c = t[1], t[2], t[3]
             if not b:
@@ -911,6 +955,13 @@ class Evaluator:
         """Three-valued truth of a term in a state."""
         t = st.subst.get(t, t)
         k = t[0]
+        if k == 'call' and t[1] in ('builtins.bool', 'numpy.bool_') and len(t[2]) == 1 and not t[3]:
+            return self.truth(t[2][0], st)
+        if k in ('cmp', 'un', 'and', 'or', 'call', 'meth', 'sub', 's', 'attr', 'callv'):
+            # a test already decided on this path keeps its outcome (same term, same path)
+            for c0, tr, ln in reversed(st.conds):
+                if c0 == t:
+                    return tr
         if k == 'c':
             try:
                 return bool(t[1])
@@ -1011,8 +1062,24 @@ class Evaluator:
             return [((('attr', t, e.attr)), s2, k) if k == 'ok' else (t, s2, k)
                     for t, s2, k in self._ev(e.value, st, mod, fi, depth)]
         if isinstance(e, ast.BinOp):
-            return self._ev_n([e.left, e.right], st, mod, fi, depth,
-                              lambda ts: _fold(BINOPS[type(e.op)], ts[0], ts[1]))
+            outs = []
+            for ts, s2, k in self._ev_n([e.left, e.right], st, mod, fi, depth, lambda ts: ('pair', ts[0], ts[1])):
+                if k != 'ok':
+                    outs.append((ts, s2, k))
+                    continue
+                a, b = ts[1], ts[2]
+                # a test used as a number (count += keep): its outcome on this path, when already decided
+                if isinstance(e.op, (ast.Add, ast.Sub, ast.Mult)):
+                    ops = []
+                    for x in (a, b):
+                        if x[0] in ('cmp', 'and', 'or') or (x[0] == 'un' and x[1] == 'not'):
+                            tv = self.truth(x, s2)
+                            if tv is not None:
+                                x = C(int(tv))
+                        ops.append(x)
+                    a, b = ops
+                outs.append((_fold(BINOPS[type(e.op)], a, b), s2, 'ok'))
+            return outs
         if isinstance(e, ast.UnaryOp):
             op = UNOPS[type(e.op)]
 
@@ -1039,6 +1106,13 @@ class Evaluator:
             return outs
         if isinstance(e, ast.BoolOp):
             kind = 'and' if isinstance(e.op, ast.And) else 'or'
+            if _pure_test(e) and not getattr(self, '_nofork', 0):
+                # a conjunction / disjunction of comparisons used as a value (flag = a is not None and n == a):
+                # decided per path like a condition, so that later rules see which comparison held
+                outs = []
+                for truth, s2, k, t in self._cond(e, st, mod, fi, depth):
+                    outs.append((t, s2, 'raise') if k == 'raise' else (C(bool(truth)), s2, 'ok'))
+                return outs
             return self._ev_n(list(e.values), st, mod, fi, depth, lambda ts: (kind, tuple(ts)))
         if isinstance(e, ast.Tuple):
             return self._ev_n(list(e.elts), st, mod, fi, depth, lambda ts: ('tuple', tuple(ts)))
@@ -1456,6 +1530,62 @@ def _is_array_expr(t):
     if t[0] == 'sub' and (t[2][0] in ('tuple', 'slice')) and _is_array_expr(t[1]):
         return True
     return False
+
+
+_SYNTH = {}
+
+
+def synth_count_loop(P, fi, s):
+    """(init statement, while loop) equivalent to `for v in itertools.count(k): body`, or None.  One synthetic loop
+    node per source loop (rules compare loop nodes by identity across evaluator runs)."""
+    if not (isinstance(s, ast.For) and isinstance(s.iter, ast.Call)
+            and P.resolve(fi.module, s.iter.func, fi) == 'itertools.count'
+            and len(s.iter.args) <= 1 and not s.iter.keywords and isinstance(s.target, ast.Name) and not s.orelse
+            and (not s.iter.args or isinstance(s.iter.args[0], ast.Constant))):
+        return None
+    if s not in _SYNTH:
+        cn = '__count_%d' % s.lineno
+        start = s.iter.args[0] if s.iter.args else ast.Constant(value=0)
+        init = ast.Assign(targets=[ast.Name(id=cn, ctx=ast.Store())], value=start)
+        take = ast.Assign(targets=[ast.Name(id=s.target.id, ctx=ast.Store())], value=ast.Name(id=cn, ctx=ast.Load()))
+        step = ast.AugAssign(target=ast.Name(id=cn, ctx=ast.Store()), op=ast.Add(), value=ast.Constant(value=1))
+        loop = ast.While(test=ast.Constant(value=True), body=[take, step] + list(s.body), orelse=[])
+        for n_ in (init, take, step, loop):
+            ast.copy_location(n_, s)
+            ast.fix_missing_locations(n_)
+        _SYNTH[s] = (init, loop)
+    return _SYNTH[s]
+
+
+def _pure_test(e):
+    """A boolean combination of comparisons only (no names or calls whose value, not truth, would be the result)."""
+    if isinstance(e, ast.BoolOp):
+        return all(_pure_test(v) for v in e.values)
+    if isinstance(e, ast.UnaryOp) and isinstance(e.op, ast.Not):
+        return _pure_test(e.operand)
+    if isinstance(e, ast.Compare):
+        # scalar comparisons only: `is`, or against a literal / a name (array comparisons stay symbolic masks)
+        return all(isinstance(op, (ast.Is, ast.IsNot, ast.Eq, ast.NotEq, ast.Lt, ast.LtE, ast.Gt, ast.GtE))
+                   for op in e.ops) and all(isinstance(c, (ast.Constant, ast.Name)) for c in [e.left] + e.comparators)
+    return False
+
+
+def res_has_exit(res, loopnode):
+    """Did an iteration of this loop leave by return / raise (then the loop is not a plain accumulation)?"""
+    for e in res:
+        if e.node is not None and any(x is e.node for x in ast.walk(loopnode)):
+            return True
+    return False
+
+
+def _neighbour_pairs(it):
+    """X when `it` is zip(X[:-1], X[1:]) (consecutive pairs of one sequence), else None."""
+    if it[0] == 'call' and it[1] == 'builtins.zip' and len(it[2]) == 2 and not it[3]:
+        a, b = it[2]
+        if a[0] == 'sub' and b[0] == 'sub' and a[1] == b[1] \
+                and a[2] == ('slice', C(None), C(-1), C(None)) and b[2] == ('slice', C(1), C(None), C(None)):
+            return a[1]
+    return None
 
 
 def _mk_sub(base, idx):
